@@ -8,9 +8,9 @@ import H3.Lemmas.Headers
     `fs : List (List Nat × List Nat)` — no bound on length, names or values — and for every
     instance `H` of the abstract `http` URI machinery satisfying `HttpLaws`.
 
-    The proofs evaluate four generated constants (`nameRejectsDquote`, `mapFallible`,
-    `trailersRefusePseudo` must be `true`, `mapPresizeRefuses` must be `false`); on a tree where one
-    of them has the other value this file does not build. -/
+    The proofs evaluate five generated constants (`nameRejectsDquote`, `mapFallible`,
+    `trailersRefusePseudo`, `hostEveryValue` must be `true`, `mapPresizeRefuses` must be `false`); on
+    a tree where one of them has the other value this file does not build. -/
 namespace H3.Props.C12
 open H3.Headers H3.Spec.Headers H3.Gen
 
@@ -40,13 +40,16 @@ example : validValue [128, 255, 9, 32] = true := by decide
     `into_request_parts` succeeds on the decoded field list `fs`, then `fs` is a well-formed
     request in the oracle's sense (every name non-empty; every regular name a lower-case token
     with a legal value; every pseudo name one of the six defined ones with a value its parser
-    accepts; a `:method`; a non-empty authority from `:authority` or `Host`, identical when each
-    occurs once), and the parts handed over carry exactly the received values: the method is the
+    accepts; a `:method`; a non-empty authority from `:authority` or `Host`, identical when both
+    are present: **every** `Host` value is the `:authority` value, and without `:authority` all
+    `Host` values are one value — `AuthorityOk`, D-12e), and the parts handed over carry exactly
+    the received values: the method is the
     (last) `:method` value, the protocol the (last) `:protocol` value if any, the URI is what
     `http` builds from the (last) `:scheme`, the authority and the (last) `:path`, where the
-    authority is non-empty, is accepted by `Authority`'s parser, is the first `Host` value when
-    there is one — and then equals the last `:authority` value if there is one too — and else the
-    last `:authority` value; the header map holds exactly the regular fields, per-name order kept. -/
+    authority is non-empty, is accepted by `Authority`'s parser, is the value of *every* `Host`
+    field when there is one — and then equals the last `:authority` value if there is one too — and
+    else the last `:authority` value; the header map holds exactly the regular fields, per-name
+    order kept. -/
 theorem C12_accepted_request_wellformed (H : Http) (L : HttpLaws H) (fs : List FieldLine) (r : RequestParts)
     (h : recvRequest H fs = .ok r) :
     WellFormedRequest H fs ∧
@@ -54,6 +57,7 @@ theorem C12_accepted_request_wellformed (H : Http) (L : HttpLaws H) (fs : List F
     r.protocol = lastVal nProtocol fs ∧
     (∃ auth, auth ≠ [] ∧ H.parseAuthority auth = some auth ∧
       ((valuesOf nHost fs).head? = some auth ∨ (valuesOf nHost fs = [] ∧ lastVal nAuthority fs = some auth)) ∧
+      (∀ hv ∈ valuesOf nHost fs, hv = auth) ∧
       (∀ a, lastVal nAuthority fs = some a → a = auth) ∧
       H.uriBuild ((lastVal nScheme fs).bind H.parseScheme) auth ((lastVal nPath fs).bind H.parsePath) = some r.uri) ∧
     CarriesRegular (hmIter r.headers) fs := by
@@ -65,7 +69,8 @@ theorem C12_accepted_request_wellformed (H : Http) (L : HttpLaws H) (fs : List F
     rw [e] at h
     simp only [Res.bind] at h
     have hi := tryFrom_ok e
-    obtain ⟨auth, m, hc, hm, hu, rm, rp, rh⟩ := intoRequestParts_ok h
+    obtain ⟨hall, auth, m, hc, hm, hu, rm, rp, rh⟩ := intoRequestParts_ok h
+    rw [inv_hosts hi, allFirst_iff] at hall
     rw [inv_authority L hi, inv_host hi] at hc
     rw [hi.method] at hm
     rw [hi.scheme, hi.path] at hu
@@ -78,31 +83,50 @@ theorem C12_accepted_request_wellformed (H : Http) (L : HttpLaws H) (fs : List F
       rcases hchoice with ⟨hh, _⟩ | ⟨_, ha⟩
       · exact ⟨auth, List.mem_append_right _ (hhead _ hh), hne⟩
       · exact ⟨auth, List.mem_append_left _ (mem_valuesOf.mpr (lastVal_mem ha)), hne⟩
-    have huniq : ∀ a ∈ valuesOf nAuthority fs, ∀ hv ∈ valuesOf nHost fs,
-        (valuesOf nAuthority fs).length = 1 → (valuesOf nHost fs).length = 1 → a = hv := by
-      intro a ha hv hhv la lh
-      obtain ⟨a', ea⟩ := List.length_eq_one_iff.mp la
-      obtain ⟨h', eh⟩ := List.length_eq_one_iff.mp lh
-      rw [ea] at ha; rw [eh] at hhv
-      simp only [List.mem_singleton] at ha hhv
-      subst ha; subst hhv
-      have hl : lastVal nAuthority fs = some a := by simp [lastVal, ea]
-      have hh : (valuesOf nHost fs).head? = some hv := by simp [eh]
-      rcases hchoice with ⟨hh2, hall⟩ | ⟨hh2, _⟩
-      · rw [hh] at hh2; cases hh2; exact hall a hl
-      · rw [hh] at hh2; cases hh2
-    refine ⟨⟨inv_fieldOk hi, ⟨(nMethod, m), lastVal_mem hm, rfl⟩, hex, huniq⟩, ?_, ?_, ?_, ?_⟩
+    -- every `Host` value is the authority handed over
+    have hhosts : ∀ hv ∈ valuesOf nHost fs, hv = auth := by
+      intro hv hhv
+      have h1 := hall hv hhv
+      rcases hchoice with ⟨hh, _⟩ | ⟨hh, _⟩
+      · rw [hh] at h1; cases h1; rfl
+      · rw [hh] at h1; cases h1
+    -- identical when both are present: the (last) `:authority` value is every `Host` value
+    have hboth : valuesOf nAuthority fs ≠ [] →
+        ∃ a ∈ valuesOf nAuthority fs, ∀ hv ∈ valuesOf nHost fs, a = hv := by
+      intro hA
+      have hl : lastVal nAuthority fs = some ((valuesOf nAuthority fs).getLast hA) := by
+        simp [lastVal, List.getLast?_eq_some_getLast hA]
+      refine ⟨_, List.getLast_mem hA, ?_⟩
+      intro hv hhv
+      rw [hhosts hv hhv]
+      rcases hchoice with ⟨_, hall2⟩ | ⟨hh2, _⟩
+      · exact hall2 _ hl
+      · have := hall hv hhv
+        rw [hh2] at this; cases this
+    refine ⟨⟨inv_fieldOk hi, ⟨(nMethod, m), lastVal_mem hm, rfl⟩, hex, hboth, hall⟩, ?_, ?_, ?_, ?_⟩
     · rw [rm]; exact hm
     · rw [rp, hi.protocol]
-    · refine ⟨auth, hne, hparse, ?_, ?_, hu⟩
+    · refine ⟨auth, hne, hparse, ?_, hhosts, ?_, hu⟩
       · rcases hchoice with ⟨hh, _⟩ | ⟨hh, ha⟩
         · exact Or.inl hh
         · exact Or.inr ⟨List.head?_eq_none_iff.mp hh, ha⟩
       · intro a ha
-        rcases hchoice with ⟨_, hall⟩ | ⟨_, ha2⟩
-        · exact hall a ha
+        rcases hchoice with ⟨_, hall2⟩ | ⟨_, ha2⟩
+        · exact hall2 a ha
         · rw [ha] at ha2; cases ha2; rfl
     · rw [rh]; exact inv_carries hi
+
+/-- the D-12e witness: `:authority: a`, `host: a`, `host: b` is not a well-formed request (the
+    second `Host` value is not the `:authority` value), nor are the two `Host` values alone
+    (R-12b); hence both are refused (`C12_malformed_request_refused`; concretely below, on `toy`). -/
+example (H : Http) : ¬ WellFormedRequest H [(nMethod, [71]), (nAuthority, [97]), (nHost, [97]), (nHost, [98])] := by
+  intro h
+  have := h.2.2.2.2 [98] (by decide)
+  revert this; decide
+example (H : Http) : ¬ WellFormedRequest H [(nMethod, [71]), (nHost, [97]), (nHost, [98])] := by
+  intro h
+  have := h.2.2.2.2 [98] (by decide)
+  revert this; decide
 
 /-! ## received responses -/
 
@@ -196,6 +220,8 @@ theorem C12_no_panic (H : Http) (fs : List FieldLine) :
     | err x => simp [Res.bind]
     | ok hd =>
       simp only [Res.bind, Header.intoRequestParts]
+      split
+      · simp
       cases hc : chooseAuthority hd.pseudo.authority (hmGet hd.fields nHost) with
       | panic =>
         exfalso
@@ -293,7 +319,7 @@ theorem C12_map_capacity (H : Http) (fs : List FieldLine) :
     | ok hd =>
       rw [e] at h
       simp only [Res.bind] at h
-      obtain ⟨_, _, _, _, _, _, _, rh⟩ := intoRequestParts_ok h
+      obtain ⟨_, _, _, _, _, _, _, _, rh⟩ := intoRequestParts_ok h
       rw [rh]; exact tryFrom_cap e
   · intro st m h
     unfold recvResponse at h
@@ -505,6 +531,14 @@ example : recvRequest toy [(nAuthority, aCom)] = .err .missingMethod := by decid
 example : recvRequest toy [(nMethod, GET)] = .err .missingAuthority := by decide
 example : recvRequest toy [(nMethod, GET), (nHost, [])] = .err .invalidRequest := by decide
 example : recvRequest toy [(nMethod, GET), (nAuthority, aCom), (nHost, [98])] = .err .contradictedAuthority := by decide
+/-- D-12e: a later `Host` value that differs — from `:authority`, or from the first `Host` value
+    when the authority comes from `Host` — is a contradiction as well; identical ones are not -/
+example : recvRequest toy [(nMethod, GET), (nAuthority, aCom), (nHost, aCom), (nHost, [98])] = .err .contradictedAuthority := by decide
+example : recvRequest toy [(nMethod, GET), (nHost, aCom), (nAuthority, aCom), (nHost, [])] = .err .contradictedAuthority := by decide
+example : recvRequest toy [(nMethod, GET), (nHost, aCom), (nHost, [98])] = .err .contradictedAuthority := by decide
+example : recvRequest toy [(nMethod, GET), (nHost, aCom), (nAuthority, aCom), (nHost, aCom)]
+    = .ok { method := GET, uri := { scheme := none, authority := some aCom, path := none },
+            protocol := none, headers := [(nHost, [aCom, aCom])] } := by decide
 /-- the number of fields is no limit (D-01, repaired): any number of values under one name is
     handed over, in order -/
 example (k : Nat) : recvTrailers toy (List.replicate (k + 1) ([120], [49])) =
